@@ -62,6 +62,22 @@ impl Database {
         self.writer_pool.shutdown().await;
     }
 
+    /// Simulated syncer tick: sends `FlushPoll` to one writer thread.
+    #[cfg(feature = "verif")]
+    pub fn verif_flush_poll(&self, thread: usize) -> bool {
+        self.writer_pool.verif_flush_poll(thread)
+    }
+
+    #[cfg(feature = "verif")]
+    pub fn verif_num_writer_threads(&self) -> usize {
+        self.writer_pool.verif_num_threads()
+    }
+
+    #[cfg(feature = "verif")]
+    pub fn verif_thread_of_bucket(&self, bucket_id: BucketId) -> Option<u16> {
+        self.writer_pool.verif_thread_of_bucket(bucket_id)
+    }
+
     pub async fn append_events(&self, events: Transaction) -> Result<AppendResult, WriteError> {
         let bucket_id = events.partition_id % self.total_buckets;
         self.writer_pool.append_events(bucket_id, events).await
